@@ -94,6 +94,14 @@ func SimpleItems(depth int, leaf jx.Obj) jx.Obj {
 	cur := leaf
 	for i := 1; i < depth; i++ {
 		cur = jx.Obj{"type": "array", "items": cur}
+		if r, ok := leaf["$ref"].(string); ok {
+			// a $ref at every level of the chain (the same one at two depths counts twice)
+			cur["$ref"] = r
+		} else if p, ok := leaf["pattern"].(string); ok && i%2 == 1 {
+			cur["pattern"] = p + "-outer" + strconv.Itoa(i)
+		} else if _, ok := leaf["enum"]; ok && i%2 == 1 {
+			cur["enum"] = jx.Arr{jx.Arr{"outer" + strconv.Itoa(i)}}
+		}
 	}
 	return cur
 }
@@ -219,7 +227,8 @@ func plantedSpecs() []plantedSpec {
 					put(d, path, method, key, jx.Obj{"$ref": "#/responses/sharedOne"})
 				}
 			case "pattern":
-				put(d, path, method, key, jx.Obj{"description": "r", "headers": jx.Obj{"X-Planted": jx.Obj{"type": "string", "pattern": "^hdr" + strconv.Itoa(n)}}})
+				put(d, path, method, key, jx.Obj{"description": "r", "headers": jx.Obj{"X-Planted": jx.Obj{"type": "string", "pattern": "^hdr" + strconv.Itoa(n)},
+					"X-Both": jx.Obj{"type": "string", "pattern": "^both" + strconv.Itoa(n), "enum": jx.Arr{"both" + strconv.Itoa(n)}}}})
 			default:
 				put(d, path, method, key, jx.Obj{"description": "r", "headers": jx.Obj{"X-Planted": jx.Obj{"type": "string", "enum": jx.Arr{"hdr" + strconv.Itoa(n)}}}})
 			}
